@@ -662,7 +662,14 @@ func (vm *VM) run() (Addr, bool) {
 				// An invalid reflect.Value represents a nil interface value.
 				cond = !vm.general(a).IsValid()
 			case ConditionNil, ConditionNotNil:
-				cond = vm.general(a).IsNil()
+				v := vm.general(a)
+				if v.Type() == callablePtrType {
+					// A function value is a pointer to a callable that is
+					// never nil: it is the callable that can be nil.
+					cond = v.Interface().(*callable).isNil()
+				} else {
+					cond = v.IsNil()
+				}
 			case ConditionEqual, ConditionNotEqual:
 				x := vm.general(a)
 				y := vm.generalk(c, op < 0)
